@@ -7,6 +7,51 @@ WIP = "contracts not completed yet in this build (see DESIGN.md section 12); not
 
 # id -> (claimed, level, text, note, technique, design_ref)
 P = {
+ "C01": (True, "proof",
+         "Verus proves every pure Filter combinator (real bodies) equal to its logical definition under a trait-level contract, modularly for arbitrary children; "
+         "Kani proves on the real crates, with oracle filter/emitter/context/clock children and full-domain symbolic values, the emit pipeline contract (filter consulted once on the fully built event; emitter receives exactly that event once iff accepted; when-filter replaces the runtime filter) and every emitter combinator incl. the type-erased paths",
+         "trusted: ToEvent/Event mirror in the Verus unit; Kani harnesses use one own + one ambient-only + one shared key (emit is parametric in Props); structural induction over combinator trees is a meta-argument for Kani-proved combinators; closure leaves (FromFn) are oracles",
+         "contract-based deductive verification (Verus trait contracts on extracted impls; Kani oracle-children contracts)", "8 C01"),
+ "C02": (True, "proof",
+         "Verus proves on the real bodies that get == first(enumeration) and is_unique ==> no duplicate keys for &P, Empty, And, AsMap, Dedup, (K,V) and the macro-built props (no sortedness assumption), and proves each for_each's exact call sequence (prefix of the same kvs, stops at first Break) for 16 collection types",
+         "trusted: Str/Value mirrors with byte-content equality and lexicographic order; default Props::get (closure capturing &mut) is an external_body stub under the trait contract; Dedup::for_each, std maps, dyn ErasedProps, thread-local frames, macro expansion not covered",
+         "contract-based deductive verification (Verus on mechanically extracted functions, ghost call traces)", "8 C02"),
+ "C03": (True, "proof",
+         "frame layer only: Kani proves on the real Frame/FrameFuture/Ctxt forwarders (oracle context logging every operation) enter-scope-exit-close exactly once in order for call/enter/with/poll, default open_push/open_disabled, and the erased context paths incl. ErasedFrame inline and boxed storage; Verus proves the stack-discipline lemma over the swap contract",
+         "NOT covered (stated): that ThreadLocalCtxt meets the swap contract (thread_local with destructor: Kani ICE, no Verus model), thread/task isolation, panic unwinding",
+         "contract-based deductive verification (Kani oracle-context contracts; Verus lemma over the swap contract)", "8 C03"),
+ "C04": (True, "proof",
+         "Verus proves on the real SpanCtxt::current/new_child/new_root, TraceId/SpanId::random, Props for SpanCtxt and SpanGuard::new/push_ctxt: child ids (trace inherited, parent = enclosing span id), filter shown the span event with ids, exactly one Frame::push iff enabled else exactly one Frame::disabled, is_enabled == verdict; read-back lemma",
+         "per-step contracts; the tree is the (stated) induction; Rng, Ctxt::with_current, Filter relational mirrors; thread hand-off and poll interleavings reduce to C03's frame contract",
+         "contract-based deductive verification (Verus on mechanically extracted functions)", "8 C04"),
+ "C06": (True, "proof",
+         "Verus proves the critical sections of Sender::send/try_send/when_flushed/when_empty/send_or_wait, the hand-off block and the retry loop of Receiver::exec (real statements) against shared spec functions, and proves as an inductive invariant of the transition system made of exactly those spec functions: kept == concat(handed) ++ pending, FIFO, exactly-once, truncation accounting",
+         "trusted: std::sync::Mutex mutual exclusion (lock elision R4), Watchers callbacks (boxed FnOnce) as ghost id lists, catch_unwind really catches (R8), processor behaviour",
+         "contract-based deductive verification (Verus critical-section contracts + inductive history lemma)", "8 C06"),
+ "C07": (True, "proof",
+         "same units as C06: when_flushed fires at once iff not in a batch and (empty or closed) else travels with the pending batch; watchers are notified only after the retry loop exits; flush-soundness lemma over the transition system; OTLP blocking_flush = conjunction over configured signals; file on_batch returns Ok only after flush and sync_all",
+         "trusted: as C06; condvar/oneshot trigger side; OS durability",
+         "contract-based deductive verification (Verus)", "8 C07"),
+ "C08": (True, "proof",
+         "Verus proves the retry loop terminates with at most max+1 attempts for every outcome sequence (success, permanent/retryable failure, panic before or inside the future), back-off bounded and non-decreasing, budget reset per batch, return iff closed and empty; Retry/Delay/Capacity contracts",
+         "wall-clock bounds, tokio contexts, thread join not applicable; Duration arithmetic via three trusted facts",
+         "contract-based deductive verification (Verus, decreases clauses)", "8 C08"),
+ "C12": (True, "proof",
+         "Verus proves OtlpTransport::send (real async body): Ok => every request of the batch acknowledged exactly once; Err => the retryable channel holds exactly the unacknowledged requests, failed one included; OTLP Channel::push keeps the concatenated event sequence and starts a new request iff none or size limit reached",
+         "trusted: send_batch abstracted by its result, EncodedScopeItems as push history; transport, framing, compression not applicable",
+         "contract-based deductive verification (Verus on mechanically extracted functions)", "8 C12"),
+ "C13": (True, "other",
+         "panic-freedom only: Verus proves every method of the sval::Stream impl for AnyStream total against a hand-declared Stream mirror; the six todo!() for non-string map keys fail and are the known finding F11; well-formedness / faithfulness of the output is produced by sval_json/sval_protobuf and is not applicable",
+         "partial: only emit's own AnyStream code; sval default methods not mirrored",
+         "contract-based deductive verification (Verus panic-freedom)", "8 C13"),
+ "C14": (True, "proof",
+         "Verus proves OtlpInner::emit has exactly one effect at every exit: Send(metrics) iff configured and accepted, else traces, else logs, else discard+1; encoder decision prefixes (traces: span kind and range extent; logs: always; metrics: one direction)",
+         "trusted: Sender::send / counters as logged effects; numeric-value decision inside sval visitor only one-directional",
+         "contract-based deductive verification (Verus ghost effect trace)", "8 C14"),
+ "C18": (True, "proof",
+         "Verus proves on the real traceparent functions: incoming_traceparent case split (sampler called exactly once iff new root and flags sampled; never for child / continued traces; flags inherited), filters, ctxt open/enter/exit swap contract, with_current id synthesis, push/current; plus the stack lemma",
+         "trusted: the two thread-local accessor functions (R15), Props/Ctxt mirrors; trees/threads/futures follow from step contracts + C03 lemma",
+         "contract-based deductive verification (Verus with ghost thread-local slot and sampler call log)", "8 C18"),
  "C05": (True, "proof", "Kani proves each SpanGuard operation contract from an arbitrary abstract pre-state (induction over operation sequences), loop-free over full-domain symbolic inputs, on the real crate", "trusted: CBMC/Kani; panic unwinding not modelled (panic=abort); macro expansion of #[span] not covered", "contract-based deductive verification (Kani per-operation contracts from symbolic pre-states; Verus for completion event shape)", "8 C05"),
  "C16": (True, "proof",
          "Verus proves on the real Template::eq (extracted each run, no statement replaced) that it is total and returns exactly equality of the canonical token sequences, "
